@@ -83,8 +83,11 @@ def contract_unit(c, tier='quick', probe=False, world_setup=None):
                  and o['kind'] != 'vacuity']
         definite = [o for o in out if o['status'] == 'failed'
                     and o['kind'] in ('post', 'raises')]
-        no_inv = any('without invariant' in (o.get('detail') or '')
-                     for o in out)
+        # (also when the symbolic run left the encoding because a length
+        # was symbolic: the unrolled runs have concrete lengths)
+        no_inv = any(('without invariant' in (o.get('detail') or '') or
+                      'concrete length' in (o.get('detail') or ''))
+                     and o['status'] == 'unknown' for o in out)
         if shaky and (c.loops or no_inv) and not probe and not definite:
             rbudget = Budget(branch_ms=1000, prove_ms=3000, max_paths=80)
             for k in (0, 1, 2, 3):
